@@ -13,6 +13,8 @@ def server_stubs(pipe=True):
      ("(*github.com/xtaci/smux.Stream).Read", "vpStreamRead"), ("(*github.com/xtaci/smux.Stream).Write", "vpStreamWrite"),
      ("(*github.com/xtaci/smux.Stream).Close", "vpStreamClose"), ("(*github.com/xtaci/smux.Stream).WriteTo", "vpStreamWriteTo"), ("(*github.com/xtaci/smux.Stream).RemoteAddr", "vpStreamRemoteAddr"),
      ("(*github.com/xtaci/smux.Stream).LocalAddr", "vpStreamLocalAddr"),
+     ("(*github.com/xtaci/smux.Stream).SetDeadline", "vpStreamSetDeadline"), ("(*github.com/xtaci/smux.Stream).SetReadDeadline", "vpStreamSetReadDeadline"),
+     ("(*github.com/xtaci/smux.Stream).SetWriteDeadline", "vpStreamSetWriteDeadline"),
      ("github.com/go-chi/chi.NewRouter", "vpChiNewRouter"), ("(*github.com/go-chi/chi.Mux).Use", "vpChiUse"),
      ("(*github.com/go-chi/chi.Mux).HandleFunc", "vpChiHandleFunc"),
      ("github.com/bokysan/socketace/v2/internal/server.GetRequestLogger", "vpGetRequestLogger"),
